@@ -301,6 +301,50 @@ for _s in (True, False):
     close_unit(_s)
 
 
+@unit("C11", "common:ImageIterator.close+BaseImage._close_image")
+def u_close_real_close_image(ctx):
+    """close() of an iterator with the REAL BaseImage._close_image underneath, also when the image itself was closed first (its
+    `_source` is gone by then): a file the iterator opened is closed whatever the order of the two closes; the caller's PIL image is
+    never closed."""
+    obs = []
+    IS = ctx.ns("term_image.image.common").d["ImageSource"]
+    for pil_source in (False, True):
+        for image_closed_first in (False, True):
+            label = f"C11/ImageIterator.close[{'PIL' if pil_source else 'file'}-source,image-{'closed-first' if image_closed_first else 'open'}]"
+            eng, st, self_, image, img, gen, NF = _iter_world(ctx, label, True)
+            eng.default_replay = "C11.close_order"
+            eng.genv["ImageSource"] = IS
+            h = st.H(image)
+            h["_source_type"] = IS.d["PIL_IMAGE"] if pil_source else IS.d["FILE_PATH"]
+            h["_closed"] = image_closed_first
+            if not image_closed_first:
+                h["_source"] = img if pil_source else "SRC_PATH"
+            eng.closed_classes.add("BlockImage")
+            real = inline(ctx.fn(COMMON, "BaseImage._close_image"), eng)
+            eng.methods[("BlockImage", "_close_image")] = lambda e, s, recv, a, k, real=real: e.call(real, (recv,) + tuple(a), k, s)
+            st.ghost["pil_close_calls"] = 0
+
+            def pil_close(e, s, recv, a, k):
+                s = e.fork(s)
+                s.H(recv)["closed"] = True
+                s.ghost["pil_close_calls"] = s.ghost["pil_close_calls"] + 1
+                return [(None, s)]
+            eng.methods[("pilimg", "close")] = pil_close
+            st.env["self"] = self_
+            for kind, val, s in run_function(eng, ctx.fn(COMMON, "ImageIterator.close"), st):
+                if kind == "raise":
+                    eng.oblige(f"close-never-raises({val.cls})", s, False, kind="raise")
+                    continue
+                if pil_source:
+                    eng.oblige("the-caller's-PIL-image-is-not-closed", s, And(s.H(img)["closed"] is False, s.ghost["pil_close_calls"] == 0), kind="post")
+                else:
+                    eng.oblige("the-file-the-iterator-opened-is-closed(whichever-of-image-and-iterator-is-closed-first)", s,
+                               And(s.H(img)["closed"] is True, s.ghost["pil_close_calls"] == 1), kind="post")
+                eng.oblige("generator-closed", s, s.H(gen)["closed"] is True, kind="post")
+            obs += eng.obligations
+    return obs
+
+
 @unit("C11", "common:ImageIterator.__next__")
 def u_next(ctx):
     obs = []
